@@ -182,6 +182,32 @@ def run_case(case, ctx, res):
             res.violate("load-raised", f"load(select={select}) {sub.describe()}", spec=iom.spec_brief(spec), tb=sub.tb)
             return
         full, sub = full.value, sub.value
+        # the same restricted load on the dataset that has just made the full load: what is excluded must not be
+        # read again (the earlier groups stay exactly as they were), what is requested must still be the projection
+        if case["i"] % 2 == 0:
+            from ..snapshot import fp
+            from ..util import attempt
+            res.count("restricted-load-on-used-dataset")
+            before = {g: fp(full[g]) for g in full.keys()}
+            with iom.quiet():
+                again = attempt(lambda: full.load(select=select))
+            if not again.ok:
+                res.violate("load-raised", f"load(select={select}) on a dataset that had made a full load {again.describe()}",
+                            spec=iom.spec_brief(spec))
+                return
+            for g in sub.keys():
+                for key in sub[g].keys():
+                    if key not in full[g].keys() or same_member(full[g][key], sub[g][key]):
+                        res.violate("projection-differs", f"load(select={select}) after a full load on the same dataset: "
+                                    f"{g}[{key!r}] differs from the restricted load of a fresh dataset", spec=iom.spec_brief(spec))
+                        return
+            for g in before:
+                if g not in sub.keys() and (g not in full.keys() or fp(full[g]) != before[g]):
+                    res.violate("excluded-group-touched", f"load(select={select}) after a full load on the same dataset changed the "
+                                f"excluded group {g!r}", spec=iom.spec_brief(spec))
+                    return
+            full, _, _ = iom.load(osy, path, spec["nout"])
+            full = full.value
         gv = group_vars(model)
         # groups
         res.count("group-subset")
